@@ -91,14 +91,27 @@ func valStr(v reflect.Value) string {
 }
 
 // judgeSize runs one (carrier, value, rule) through the library and the oracle.
-func judgeSize(res *core.Result, carrier string, v reflect.Value, rule string, lo, hi int64, defaultWording bool) {
+// c01Msgs: custom messages a size rule may carry ("" = default wording): one byte, containing the
+// message separator itself (only the first one separates), '=', blanks, CJK.
+var c01Msgs = []string{"msgX", "m", "too small|try again", "值太小", "a=b|c", "msg X", "!", "x|"}
+
+func c01Msg(n int) string {
+	if n%3 != 0 {
+		return ""
+	}
+	return c01Msgs[(n/3)%len(c01Msgs)]
+}
+
+func judgeSize(res *core.Result, carrier string, v reflect.Value, rule string, lo, hi int64, msg string) {
+	defaultWording := msg == ""
 	m, ok := ref.Measure(v)
 	if !ok {
 		return
 	}
 	text := sizeRuleText(rule, lo, hi)
 	if !defaultWording {
-		text += "|msgX"
+		text += "|" + msg
+		res.Count("message_shape|" + msg)
 	}
 	out, ok := drive.Carry(carrier, v, text)
 	if !ok {
@@ -151,7 +164,7 @@ func judgeSize(res *core.Result, carrier string, v reflect.Value, rule string, l
 			return
 		}
 		if !defaultWording {
-			if cl.Text != "msgX" {
+			if cl.Text != msg {
 				report("custom-message", "wrong-text")
 				return
 			}
@@ -179,13 +192,13 @@ var c01Strides = []struct {
 	carrier string
 	every   int
 }{
-	{drive.Var, 1}, {drive.StructRM, 16}, {drive.MapT, 16}, {drive.MapIface, 16}, {drive.SliceMap, 32}, {drive.StructTag, 64},
+	{drive.Var, 1}, {drive.StructRM, 16}, {drive.MapT, 16}, {drive.MapIface, 16}, {drive.SliceMap, 32}, {drive.StructTag, 64}, {drive.StructCtx, 16},
 }
 
 func init() {
 	core.Register(&core.Prop{
 		ID: "C01",
-		Rule: "(a) complete enumeration: every non-zero int8 and uint8 value x {ge,le,gt,lt,eq,noeq} x every bound in [-130,260], x {to,oto} x every (lo,hi) in BxB with B={-4..4,125..130,253..257}, each through Var and strided through Struct(RM), Struct(tag), Map[string]T, map[string]interface{}, []map; " +
+		Rule: "(a) complete enumeration: every non-zero int8 and uint8 value x {ge,le,gt,lt,eq,noeq} x every bound in [-130,260], x {to,oto} x every (lo,hi) in BxB with B={-4..4,125..130,253..257}, each through Var and strided through Struct(RM), Struct(tag), a struct whose ruled field sits between time.Time, string and integer neighbours, Map[string]T, map[string]interface{}, []map; one case in three with a custom message (one byte, containing the message separator, an equals sign, blanks, CJK); " +
 			"(b) boundary-directed random: kinds int16..int64,int,uint16..uint64,uint,float32,float64,string,slices with bounds near 0, 2^7, 2^8, 2^15, 2^16, 2^31, 2^32, 2^53, 2^62, 2^63-1 and values at bound-1, bound, bound+1 (floats: adjacent floats and +-0.5; strings: rune length at the bound with multi-byte runes), strings also through Url raw/encoded. " +
 			"distinct = distinct (carrier, kind, value, rule text); non-trivial = value non-zero and within 1 of a bound, or expected-violated",
 		Exhaustive: func(t core.Tier) bool { return true },
@@ -265,7 +278,7 @@ func runC01(c *core.Ctx) {
 				n++
 				for _, s := range c01Strides {
 					if n%s.every == 0 {
-						judgeSize(res, s.carrier, v, rule, lo, hi, n%3 != 0)
+						judgeSize(res, s.carrier, v, rule, lo, hi, c01Msg(n))
 					}
 				}
 				res.DistinctEnum(1)
@@ -555,6 +568,9 @@ func c01Random(res *core.Result, rng *rand.Rand, i int) {
 		}
 	}
 	carriers := []string{drive.Var, drive.StructRM}
+	if i%2 == 1 {
+		carriers = append(carriers, drive.StructCtx)
+	}
 	switch v.Kind() {
 	case reflect.Slice:
 		if i%4 == 0 {
@@ -574,7 +590,7 @@ func c01Random(res *core.Result, rng *rand.Rand, i int) {
 		}
 	}
 	for _, cr := range carriers {
-		judgeSize(res, cr, v, rule, lo, hi, i%3 != 0)
+		judgeSize(res, cr, v, rule, lo, hi, c01Msg(i))
 		if near || ref.SizeViolated(rule, lo, hi, m) {
 			res.Distinct(cr + "|" + v.Type().String() + "|" + valStr(v) + "|" + text)
 		}
